@@ -17,6 +17,9 @@ EXPLANATION = (
 EXPLANATION += (  # round-3 supplement
     " H7 a closure or struct that captures a handle's code pointer also captures its module reference. H8 codegen pushes the keep-alive Arc on every path to the recording of a closure pointer."
 )
+EXPLANATION += (
+    ' H9 who may relinquish ownership without a drop: mem::forget / into_raw / leak / ManuallyDrop::new / increment_strong_count occur only at the reviewed sites (five, with their counterparts).'
+)
 ASSUMPTIONS = [
     "Rust ownership/Arc semantics: a value is dropped exactly once when its last owner goes away",
     "fields are dropped in declaration order",
@@ -388,9 +391,54 @@ def rule_h8(F):
     return r
 
 
+RELINQUISH_REVIEWED = {
+    # (function suffix, primitive) -> where the ownership goes
+    ("as codegen::check::RotoFunc>::invoke", "forget"): "the transformed arguments are owned by the script from the call on (C03.F6)",
+    ("codegen::ModuleData::new", "ManuallyDrop::new"): "the JIT module is freed explicitly in <JITModuleWrapper as Drop>::drop (H3)",
+    ("value::TypeRegistry::store", "leak"): "entries of the process-wide type registry live for the whole process by design",
+    ("value::list::RawList::extend", "forget"): "the elements were cloned into the destination list, which owns them now",
+    ("value::list::boundary::List::<T>::push", "ManuallyDrop::new"): "the element's bytes are copied into the list, which owns them now",
+}
+
+
+def rule_h9(F):
+    """'Released exactly once, after the last handle or package referring to them is gone': everything the runtime owns is released by
+    ordinary drops, so every place that gives ownership up WITHOUT a drop - mem::forget, into_raw, leak, ManuallyDrop::new,
+    increment_strong_count - is a reviewed site whose counterpart is known.  (A `ptr()` accessor written as
+    `Arc::into_raw(Arc::clone(..))` returns the same address and adds a strong count that nobody gives back: a registered constant
+    that a script reads is never released.)"""
+    r = RuleResult("C11.H9", "ownership is only relinquished without a drop (forget / into_raw / leak / ManuallyDrop::new) at reviewed sites", floor=5)
+    for b in F.all_bodies():
+        if not b.mir or "::tests::" in b.path or b.file.endswith("tests.rs") or not b.file.startswith(("src/", "/repo/src", "macros/")) and "/src/" not in b.file:
+            continue
+        for bi, t in mir.calls(b):
+            d = mir.callee_def(t) or ""
+            prim = None
+            if d == "std::mem::forget":
+                prim = "forget"
+            elif d.endswith("::into_raw") or d.endswith("::into_raw_with_allocator"):
+                prim = "into_raw"
+            elif d.endswith("::leak"):
+                prim = "leak"
+            elif "ManuallyDrop::<T>::new" in d:
+                prim = "ManuallyDrop::new"
+            elif "increment_strong_count" in d:
+                prim = "increment_strong_count"
+            if prim is None:
+                continue
+            owner = b.path.split("::{closure")[0]
+            reason = next((v for (fn, p_), v in RELINQUISH_REVIEWED.items() if owner.endswith(fn) and p_ == prim), None)
+            r.inst("%s %s" % (owner, prim), {"fn": owner, "line": t.get("line"), "primitive": prim, "reviewed": reason})
+            if reason is None:
+                r.bad(owner, "%s outside the reviewed sites" % prim, relfile(b.file), t.get("line"),
+                      "%s gives up ownership without a drop (%s) and is not one of the reviewed sites: what it keeps alive - a registered constant, closure state, machine code - is never "
+                      "released, or is released by someone else a second time" % (hir.last(owner), prim))
+    return r
+
+
 def rules(ctx):
     F = ctx["F"]
-    return [rule_h1(F), rule_h2(F), rule_h3(F), rule_h4(F), rule_h5(F), rule_h7(F), rule_h8(F)]
+    return [rule_h1(F), rule_h2(F), rule_h3(F), rule_h4(F), rule_h5(F), rule_h7(F), rule_h8(F), rule_h9(F)]
 
 
 def thorough_rules(ctx):
